@@ -109,6 +109,8 @@ def run_case(case):
         sigb = 'c09:'
         acc = assoc.make_acceptor(ae)
         rq = assoc.decode_pdu(assoc.rq_tree(ctxs, called='SCP-TITLE', calling='SCU-TITLE'))
+        at_send = []
+        acc.dul.on_send = lambda dul, item: at_send.append({k: (str(v[1]), str(v[2])) for k, v in dul.accepted_contexts.items()})
         try:
             acc.accept(rq)
         except Exception as exc:
@@ -143,6 +145,11 @@ def run_case(case):
         apps = [i for i in ac['items'] if i['t'] == 0x10]
         if len(apps) != 1 or apps[0]['name'] != pdugen.APP_CTX:
             viol.append((sigb + 'app-context', 'reply application context items %r' % (apps,)))
+        # the provider thread sends the reply and may read the peer's first message before accept() returns: what it needs to
+        # decode that message must be in place when the reply is handed over
+        if at_send and at_send[0] != expected_accept:
+            viol.append((sigb + 'provider-table-late', 'when the A-ASSOCIATE-AC was handed to the provider, the provider\'s accepted contexts were %r; '
+                         'the reply accepts %r (%s)' % (at_send[0], expected_accept, where)))
         # internal tables = what was reported
         tables = {'accepted_contexts': acc.accepted_contexts, 'sop_classes_as_scp': acc.sop_classes_as_scp,
                   'dul.accepted_contexts': acc.dul.accepted_contexts}
